@@ -198,6 +198,7 @@ DqAppend(a, b, f) ==
 DqFromVec(pairs, f)  == Then(StoreFromVec(pairs, f),  LAMBDA x : DqHeapBuild(x.st, x.fuel))
 DqFromIter(pairs, f) == Then(StoreFromIter(pairs, f), LAMBDA x : DqHeapBuild(x.st, x.fuel))
 DqFromStore(s, f)    == DqHeapBuild(s, f)
+DqDeserialize(pairs, f) == Then(StoreDeserialize(pairs, f), LAMBDA x : DqHeapBuild(x.st, x.fuel))
 
 RECURSIVE DqPushAll(_,_,_)
 DqPushAll(s, pairs, f) ==
